@@ -270,7 +270,7 @@ def run(ctx):
                 if bad:
                     f = parse_op(o)
                     key = "gate:%s:/%s" % (f["m"], "/".join(pattern_of(f["segs"])))
-                    ctx.violation(key, bad, "op: %s\nimpl: %s\n" % (o, i))
+                    ctx.violation(key, bad, "request: %s\nop: %s\nimpl: %s\n" % (describe(f), o, i))
             diffs = ctx.diff_lines(impl, model, name)
             for idx, a, b in diffs:
                 ctx.log("model/impl disagree on `%s`:\n   impl=%s\n  model=%s" % (ops[idx][:400], a, b))
@@ -294,6 +294,14 @@ def run(ctx):
         ctx.broken_without_input(ctx.broken_ties + corr_broken,
                                  "search: %d generated requests; the direct oracle found no unauthenticated request "
                                  "that was answered other than 403 or reached an upstream" % ctx.evaluations)
+
+
+def describe(f):
+    """The request of an op line in readable form (for replay files)."""
+    q = unhex(f["xq"]) if "xq" in f else ""
+    return "%s /%s%s  headers as received: %s  admin-users=%s acl-header=%s" % (
+        f["m"], "/".join(f["segs"]), ("?" + q) if q else "", ["%s: %s" % kv for kv in f["hdrlist"]],
+        f["userlist"], unhex(f.get("acl", "-")))
 
 
 def norm_op(op):
